@@ -26,4 +26,12 @@ func init() {
 		Desc:     "a monitor disconnects while events are queued in the hub ahead of its unregistration (hub held inside a slow monitor by a symbolic gate): the other monitor still receives every event, in order, and the hub keeps working",
 		Bounds:   "param (history length); three monitors (leaving, staying, slow), two events around the disconnect; gate = hub busy or not; natively repeated 24 times (map iteration order of the hub's listeners)",
 	})
+	register(Harness{
+		Prop: "C15", Pkg: "rest", Func: "VerifC15Slow", ExtraPkgs: []string{"msghub"}, InitPkgs: []string{"msghub"},
+		Quick:    [][]int64{{103}},
+		Thorough: [][]int64{{101}, {103}, {120}},
+		Unwind:   260,
+		Desc:     "a WebSocket monitor that nobody reads (its 100-slot queue fills) while n > 100 events are dispatched: the hub keeps serving (Sync returns) and a second monitor gets every event in order",
+		Bounds:   "param n (events); one unread msgListenerV2, one counting monitor, one dispatcher goroutine; 3 s watchdog natively",
+	})
 }
